@@ -135,11 +135,170 @@ def gen_case(rng, n_ops, faults=False, crashes=False):
     return out
 
 
+# ---------------------------------------------------------------------------------------------- clause scenarios
+
+def _preamble(rng, maxsubs=32, modes=None):
+    out = [f"reset {maxsubs}"]
+    modes = modes or {}
+    for u in ("U1", "U2", "U3", "U4"):
+        out.append(f"user {u} {modes.get(u, 'JRWPAS')} {rng.choice(['N', 'JR'])}")
+    for s, u, lvl, bg in (("S1", "U1", "auth", ""), ("S2", "U2", "auth", ""), ("S3", "U3", "auth", ""), ("S4", "U1", "auth", ""),
+                          ("S5", "U2", "auth", "bg"), ("S6", "U4", "anon", ""), ("S7", "U3", "root", "")):
+        out.append(f"sess {s} {u} {lvl} {bg}".strip())
+    return out
+
+
+def _maybe_restart(rng, out, p=6):
+    if rng.chance(1, p):
+        out.append("restart")
+        return True
+    return False
+
+
+def scenario(rng):
+    """one short history aimed at a clause of the properties, with its parameters drawn at random; restarts are sprinkled in so
+    that the same clause is also exercised on a reloaded topic"""
+    k = rng.below(11)
+    out = _preamble(rng, maxsubs=rng.choice([32, 32, 3]))
+    owner = rng.choice(["S1", "S2", "S3"])
+    ou = {"S1": "U1", "S2": "U2", "S3": "U3"}[owner]
+    others = [(s, u) for s, u in (("S1", "U1"), ("S2", "U2"), ("S3", "U3")) if s != owner]
+    (ms, mu), (ns, nu) = others
+    defacs = rng.choice(["", "", " auth=JRWPS anon=N", " auth=JRWP anon=JR", " auth=JRWPSO anon=N", " auth=JR anon=N"])
+    out.append(f"newgrp {owner}{defacs}")
+    T = "T1"
+
+    def reattach():
+        for s in (owner, ms, ns):
+            out.append(f"sub {s} {T}")
+
+    if k == 0:      # administrator raises the own grant
+        out.append(f"sub {ms} {T}")
+        out.append(f"setsub {owner} {T} user={mu} mode={rng.choice(['JRWPA', 'JRWPAS', 'JRPA', 'JA'])}")
+        if _maybe_restart(rng, out):
+            reattach()
+        for _ in range(1 + rng.below(3)):
+            out.append(f"setsub {ms} {T} mode={rng.choice(['JRWPASD', 'JRWPAD', 'JRWPASDO', 'JRWPAS', 'JASD', 'JRWPD', 'JRWPSD'])}")
+        out.append(f"get {ms} {T} sub")
+    elif k == 1:    # bans and limits stick
+        out.append(f"sub {ms} {T}")
+        out.append(f"setsub {owner} {T} user={mu} mode={rng.choice(['N', 'N', 'RWP', 'J', 'JR'])}")
+        out.append(rng.choice([f"delsub {owner} {T} {mu}", f"leave {ms} {T} unsub=1", f"deltopic {ms} {T}"]))
+        if _maybe_restart(rng, out, 3):
+            out.append(f"sub {owner} {T}")
+        out.append(f"sub {ms} {T}" + rng.choice(["", " mode=JRWPS", " mode=JRWPASDO"]))
+        out.append(f"pub {ms} {T} C1")
+        out.append(f"get {owner} {T} sub")
+    elif k == 2:    # marks: stale, duplicate, future, between read and recv
+        out.append(f"sub {ms} {T}")
+        n = 2 + rng.below(8)
+        for i in range(n):
+            out.append(f"pub {owner} {T} C{i + 1}")
+        for _ in range(3 + rng.below(6)):
+            what = rng.choice(["read", "recv", "recv", "read", "kp"])
+            q = 0 if what == "kp" else rng.choice([1 + rng.below(n), 1 + rng.below(n), n, n + 1, 0, -1])
+            out.append(f"note {rng.choice([ms, ms, owner])} {T} {what} {q}")
+            if _maybe_restart(rng, out, 10):
+                reattach()
+        out.append(f"get {ms} {T} sub")
+        out.append(f"get {owner} {T} sub")
+    elif k == 3:    # ownership transfer and what the parties can do around it
+        out.append(f"sub {ms} {T}")
+        out.append(f"sub {ns} {T}")
+        out.append(f"setsub {owner} {T} user={mu} mode={rng.choice(['JRWPASDO', 'JRWPSO', 'JO'])}")
+        steps = [f"setsub {ms} {T} mode=JRWPASDO", f"sub {ms} {T} mode=JRWPSO", f"setsub {owner} {T} mode=JRWPAS", f"leave {owner} {T} unsub=1",
+                 f"setsub {ms} {T} user={ou} mode=JRW", f"delsub {ms} {T} {ou}", f"setsub {owner} {T} user={nu} mode=JRWPSO",
+                 f"setsub {ns} {T} mode=JRWPSO", f"deltopic {ms} {T}", f"setdesc {ms} {T} pub=pbX", f"setdesc {owner} {T} pub=pbY",
+                 f"leave {ms} {T} unsub=1", f"sub {ms} {T}", f"setsub {ms} {T} mode=JRWPS"]
+        for _ in range(3 + rng.below(5)):
+            out.append(rng.choice(steps))
+            if _maybe_restart(rng, out, 8):
+                reattach()
+        out.append(f"get {owner} {T} sub")
+    elif k == 4:    # who may publish
+        out.append(f"sub {ms} {T}" + rng.choice(["", " mode=JR", " mode=JRP", " mode=JW"]))
+        out.append(f"setsub {owner} {T} user={mu} mode={rng.choice(['JRWPS', 'JR', 'JRP', 'N', 'RWP', 'JW'])}")
+        out.append(rng.choice([f"leave {ms} {T}", f"leave {ms} {T} unsub=1", f"delsub {owner} {T} {mu}", f"sub {ms} {T}", f"sub {ms} {T} mode=JRWPS"]))
+        out.append(f"pub {ms} {T} C1" + rng.choice(["", " noecho=1", " head=sender:U1;x:y"]))
+        out.append(f"pub S6 {T} C2")
+        out.append(f"pub S7 {T} C3 as={mu}")
+        out.append(f"sub S7 {T} as={mu}")
+        out.append(f"pub S7 {T} C4 as={mu}" + rng.choice(["", ":anon", ":root"]))
+        out.append(f"get {owner} {T} data")
+    elif k == 5:    # deletion: ranges, hard without D, other users' deletions, history afterwards
+        out.append(f"sub {ms} {T}" + rng.choice(["", " mode=JRWP"]))
+        out.append(f"setsub {owner} {T} user={mu} mode={rng.choice(['JRWPS', 'JRWPSD', 'JRWP'])}")
+        n = 3 + rng.below(7)
+        for i in range(n):
+            out.append(f"pub {rng.choice([owner, ms])} {T} C{i + 1}")
+        for _ in range(2 + rng.below(4)):
+            rs = []
+            for _ in range(1 + rng.below(3)):
+                lo = rng.below(n + 2)
+                rs.append(f"{lo}:{rng.choice([0, lo, lo + 1, lo + 2, lo + 3, n + 1, 100])}")
+            out.append(f"delmsg {rng.choice([owner, ms])} {T} {','.join(rs)}" + rng.choice(["", " hard=1"]))
+            if _maybe_restart(rng, out, 8):
+                reattach()
+        for s in (owner, ms):
+            out.append(f"get {s} {T} data" + rng.choice(["", f" since={rng.below(n)} before={rng.below(n + 3)} limit={rng.choice([0, 2, 100])}"]))
+            out.append(f"get {s} {T} del")
+    elif k == 6:    # a failed or crashed publish, then a reload, then publishes
+        out.append(f"sub {ms} {T}")
+        for i in range(1 + rng.below(3)):
+            out.append(f"pub {owner} {T} C{i + 1}")
+        out.append(rng.choice(["fail", "crash"]) + f" {1 + rng.below(3)}")
+        out.append(f"pub {rng.choice([owner, ms])} {T} CX")
+        if rng.chance(2, 3):
+            out.append("restart")
+            reattach()
+        for i in range(2):
+            out.append(f"pub {rng.choice([owner, ms])} {T} D{i + 1}")
+        out.append(f"get {owner} {T} data")
+        out.append(f"get {owner} {T} desc")
+    elif k == 7:    # background sessions, foreground timer, leaving
+        out.append(f"sub S5 {T}")
+        out.append(f"sub {ms} {T}")
+        for _ in range(3 + rng.below(5)):
+            out.append(rng.choice(["fg S5", f"leave S5 {T}", f"sub S5 {T}", f"leave {ms} {T}", f"sub {ms} {T}", f"sub S4 {T}", f"leave S4 {T}",
+                                   f"setsub S5 {T} mode=JRW", f"setsub S5 {T} mode=JRWP"]))
+        out.append(f"get {owner} {T} sub")
+    elif k == 8:    # deleting the topic with others attached, then coming back
+        out.append(f"sub {ms} {T}")
+        out.append(f"sub {ns} {T}")
+        out.append(f"pub {ms} {T} C1")
+        out.append(f"deltopic {rng.choice([owner, owner, ms])} {T}" + rng.choice(["", " hard=1"]))
+        for s in (ms, ns, owner):
+            out.append(rng.choice([f"sub {s} {T}", f"pub {s} {T} C2", f"get {s} {T} desc", f"leave {s} {T}", f"note {s} {T} recv 1"]))
+    elif k == 9:    # the subscriber limit
+        out[0] = "reset 3"
+        for s in (ms, ns, "S6", "S7"):
+            out.append(f"sub {s} {T}")
+        out.append(f"setsub {owner} {T} user=U4")
+        out.append(f"leave {ms} {T} unsub=1")
+        out.append(f"sub S6 {T}")
+        out.append(f"setsub {owner} {T} user={mu}")
+    else:           # changes from a session which is not attached, and on behalf of others
+        out.append(f"sub {ms} {T}")
+        out.append(f"setsub S4 {T} mode={rng.choice(['JRW', 'JRWPS'])}")
+        out.append(f"setdesc S5 {T} priv=pvX")
+        out.append(f"setsub S7 {T} user={mu} mode=JR as={ou}")
+        out.append(f"get S4 {T} sub")
+        out.append(f"get {ms} {T} sub")
+        out.append("restart")
+        out.append(f"sub {ms} {T}")
+        out.append(f"get {ms} {T} sub")
+    return out
+
+
 # ---------------------------------------------------------------------------------------------- stream definition
 
 def gen_world(rng, tier):
-    ncases = 500 if tier == "thorough" else 200
+    ncases = 600 if tier == "thorough" else 400
     for i in range(ncases):
+        if i % 4 == 3:
+            for l in scenario(rng):
+                yield l
+            continue
         faults = i % 3 == 1
         crashes = i % 3 == 2
         for l in gen_case(rng, 30 + rng.below(90), faults=faults, crashes=crashes):
